@@ -332,6 +332,12 @@ class FullFrontend(ConstrainedFrontend):
             # all constraints are satisfied
             return ()
 
+        # The backend reads the core off the most recent check of the native solver. The answer above may have come
+        # from a cache while the native solver we hold now was never checked (it is rebuilt after pickling, after
+        # downsize() and for pending constraints), so run the check on it before asking for the core.
+        if FullFrontend.satisfiable(self, extra_constraints=extra_constraints):
+            return ()
+
         unsat_core = self._solver_backend.unsat_core(self._get_solver())
 
         return tuple(unsat_core)
